@@ -90,6 +90,11 @@ type ClientConn struct {
 	headLeft       int // bytewise deliveries left (Frag 2)
 	scrapeBlocked  bool   // set by the priority-scrape phase
 	blockedWhy     string
+	// FreezeAt > 0: a slow uploader - once this many bytes have been delivered, nothing more is delivered until
+	// the world thaws (the client is alive, just not sending for now). AfterFrozen: not dialled before every
+	// slow uploader has reached its freeze point.
+	FreezeAt    int
+	AfterFrozen bool
 	// AfterOthers: not dialled before every other connection without this flag has settled.
 	AfterOthers bool
 	Delivered   int   // client->server bytes delivered so far
@@ -111,6 +116,11 @@ func (c *ClientConn) HeadersDelivered(i, n int) bool {
 }
 
 type World struct {
+	// slow-uploader phase (ClientConn.FreezeAt): Thawed once the frozen clients resume; BlockedByFrozen lists the
+	// completely sent requests of other clients that were still unanswered when the system had gone quiet.
+	Thawed             bool
+	FrozenPhaseReached bool
+	BlockedByFrozen    []*Request
 	Sim    *Sim
 	Sys    *gtier.System
 	Conns  []*ClientConn
@@ -157,6 +167,25 @@ type World struct {
 	PrioScrape int
 	prioSeen   int
 	prioDone   bool
+}
+
+// frozenReached: every slow uploader that could be dialled has delivered its bytes up to the freeze point.
+func (w *World) frozenReached() bool {
+	for _, c := range w.Conns {
+		if c.FreezeAt > 0 && !c.refused && !c.vanished && (!c.dialed || c.Delivered < c.FreezeAt) {
+			return false
+		}
+	}
+	return true
+}
+
+func (w *World) hasFrozen() bool {
+	for _, c := range w.Conns {
+		if c.FreezeAt > 0 {
+			return true
+		}
+	}
+	return false
 }
 
 type TimeJump struct {
@@ -385,7 +414,7 @@ func (w *World) clientActions() []Action {
 		switch {
 		case c.refused || c.vanished || c.closed:
 		case !c.dialed:
-			if c.Cycle == w.curCycle() && (w.Sim.Step >= c.StartStep || w.IdleRounds > 0) && (!c.AfterOthers || w.othersSettled()) && (!w.WaitBound || w.Sim.Net.Bound(c.Addr)) {
+			if c.Cycle == w.curCycle() && (w.Sim.Step >= c.StartStep || w.IdleRounds > 0) && (!c.AfterOthers || w.othersSettled()) && (!c.AfterFrozen || w.frozenReached()) && (!w.WaitBound || w.Sim.Net.Bound(c.Addr)) {
 				acts = append(acts, Action{Key: key, Desc: "dial " + c.Addr, Do: func() { w.dial(c) }})
 			}
 		default:
@@ -487,7 +516,12 @@ func (w *World) netActions() []Action {
 			continue
 		}
 		pend, _ := c.conn.Pending(0)
-		if pend == 0 {
+		if c.FreezeAt > 0 && !w.Thawed {
+			if left := c.FreezeAt - c.Delivered; left < pend {
+				pend = left // a slow uploader: nothing beyond the freeze point moves before the thaw
+			}
+		}
+		if pend <= 0 {
 			continue
 		}
 		acts = append(acts, Action{Key: fmt.Sprintf("net:%d", c.ID), Desc: fmt.Sprintf("deliver to server (%d pending)", pend), Do: func() {
@@ -623,6 +657,23 @@ func (w *World) Run(mode string) {
 		w.afterStep()
 		if w.finished() {
 			break
+		}
+		if !progressed && !w.Thawed && w.hasFrozen() && w.IdleRounds >= 5 {
+			// Quiet for five seconds of fake time with the slow uploaders frozen: whatever another client has
+			// sent completely must have been answered by now - its response may not wait for other clients.
+			for _, c := range w.Conns {
+				if c.FreezeAt > 0 || !c.dialed || c.refused || c.vanished || c.conn == nil {
+					continue
+				}
+				if pend, _ := c.conn.Pending(0); pend == 0 && c.sent > c.got {
+					w.BlockedByFrozen = append(w.BlockedByFrozen, c.Reqs[c.got])
+				}
+			}
+			w.FrozenPhaseReached = w.frozenReached()
+			w.Thawed = true
+			w.IdleRounds = 0
+			s.Log.Addf("sched", "thaw", "slow uploaders resume (%d requests were still unanswered)", len(w.BlockedByFrozen))
+			continue
 		}
 		if !progressed {
 			// nothing enabled: only time can help (Shutdown polls on a timer)
